@@ -2,6 +2,7 @@ package main
 
 import (
 	"fmt"
+	"strings"
 	"time"
 )
 
@@ -11,7 +12,7 @@ func init() {
 			"(1) every e.Routes() entry x 8 listed token defects (absent, garbage, expired, wrong key, wrong issuer, wrong audience, HS256-with-public-key, none) + 2 unlisted (no audience, no issuer), plus one variant per signing algorithm the JWT library knows other than RS256 (RS384/512, PS256/384/512 correctly signed with the node's own RSA key, HS256/384/512 keyed with the node's public key PEM, ES256/384/512 and EdDSA with fresh keys, none), all claiming the admin role with right issuer / audience / expiry: must be 401/403 on every non-open route. " +
 			"(2) every ordered ACL list without repetition of size <=2 (quick) / <=3 (thorough) over {/datasets/a, /datasets/a*, /datasets/*, /datasets/a/entities, /jobs*, /*} x {read,write} x {allow,deny}, installed through the admin API for a registered client whose token is obtained by the real assertion exchange, x every route (dataset routes also for the neighbours ab and b): status not in {401,403} => reference decision (written from the statement) grants and does not deny; GET /datasets may list only granted names. " +
 			"(3) every sequence of <=3 (quick) / <=4 (thorough) security-admin operations (register, unregister, set ACL incl. for a never-registered client, delete ACL): clients and ACLs identical after re-initialising the security core from disk; plus one re-boot of the whole application per child. " +
-			"(4) OPA branch against a loopback stub. (5) path-spelling dimension, applied to every request of (1), (2) and (4): percent-encoded first / last / all characters of every path parameter (lower- and upper-case hex), of the first and last static segment, encoded slash before / after a parameter and at the end, double slash (leading, before / after a parameter), trailing slash, dot and dot-dot segments (plain and encoded); the real router is asked which route it picks, spellings it does not route (its own 404 / 405) are counted and not judged; the reference decision is taken on the percent-DECODED request path, and a served entities / changes body is attributed to the dataset whose content it holds. One case = one ACL list / token variant / op sequence; non-trivial = some ACL entry's pattern matches a requested path (ACL cases), >=2 kinds of operations (restart cases)",
+			"(4) OPA branch against a loopback stub. (6) c16reuse: the same token string presented again: short-lived (2 s) correctly signed tokens of every source (node key / external issuer from a loopback well-known key set, admin role / client subject) used on 5-7 routes while valid and again 1.5 s after exp: the second use must be 401; one access token string across ACL narrowed / deny added / ACL deleted / client unregistered: every request judged against the ACL in force. (7) c16storm (GOMAXPROCS 16 and 2, and under -race): 8-16 goroutines x 1500 requests with one client token against 4 allow+deny lists, every answer judged by the reference; an administrator goroutine reads the ACL back and persists the table meanwhile; afterwards API and acls.json must hold the installed entries; race blocks with both sides inside the token / ACL decision are violations. (5) path-spelling dimension, applied to every request of (1), (2) and (4): percent-encoded first / last / all characters of every path parameter (lower- and upper-case hex), of the first and last static segment, encoded slash before / after a parameter and at the end, double slash (leading, before / after a parameter), trailing slash, dot and dot-dot segments (plain and encoded); the real router is asked which route it picks, spellings it does not route (its own 404 / 405) are counted and not judged; the reference decision is taken on the percent-DECODED request path, and a served entities / changes body is attributed to the dataset whose content it holds. One case = one ACL list / token variant / op sequence; non-trivial = some ACL entry's pattern matches a requested path (ACL cases), >=2 kinds of operations (restart cases)",
 		Assumptions: []string{
 			"one-directional oracle: served (status not in {401,403}) => granted and not denied; over-rejection is counted, not alarmed",
 			"needed action: write for every method other than GET/HEAD/OPTIONS (also for the read-like POST /query, which the hub also demands)",
@@ -27,14 +28,73 @@ func init() {
 			if tier == "thorough" {
 				aclMax, aclShards, seqLen, seqShards = 3, 16, 4, 4
 			}
+			stormN, stormC, stormRounds := 1500, 2, 1
+			if tier == "thorough" {
+				stormN, stormC, stormRounds = 4000, 4, 4
+			}
 			st := []Stage{
 				{Name: "acl", Scenario: "c16acl", Args: fmt.Sprintf("max=%d,shards=%d,base=0", aclMax, aclShards), Children: aclShards, Cases: 1, Timeout: 25 * time.Minute},
 				{Name: "restart", Scenario: "c16restart", Args: fmt.Sprintf("len=%d,shards=%d,base=%d", seqLen, seqShards, aclShards), Children: seqShards, Cases: 1, Timeout: 10 * time.Minute},
 				{Name: "tokens", Scenario: "c16tokens", Children: 1, Cases: 1, Timeout: 10 * time.Minute},
 				{Name: "opa", Scenario: "c16opa", Children: 1, Cases: 1, Timeout: 10 * time.Minute},
+				{Name: "reuse", Scenario: "c16reuse", Children: 1, Cases: 1, Timeout: 10 * time.Minute},
+				{Name: "storm16", Scenario: "c16storm", Args: fmt.Sprintf("g=16,n=%d", stormN), Children: stormC, Cases: stormRounds, GOMAXPROCS: 16, Timeout: 15 * time.Minute},
+				{Name: "storm2", Scenario: "c16storm", Args: fmt.Sprintf("g=8,n=%d", stormN), Children: stormC, Cases: stormRounds, GOMAXPROCS: 2, Timeout: 15 * time.Minute},
+				{Name: "stormrace", Scenario: "c16storm", Args: fmt.Sprintf("g=8,n=%d", stormN/5), Children: 1, Cases: 1, Race: true, GOMAXPROCS: 8, Timeout: 15 * time.Minute},
 			}
 			return st
 		},
-		Post: sortViolsBySize,
+		Post: func(res *Result) {
+			c16RaceViolations(res)
+			sortViolsBySize(res)
+		},
 	}
+}
+
+// c16RaceViolations: a data race reported by the race detector in which BOTH sides run inside the
+// token / ACL decision (internal/security or the authentication / authorization middlewares) is a
+// violation: the decision of one request then depends on what another request is doing at the same
+// moment. Races elsewhere (or between a decision and an administrator's write) are counted, not judged.
+func c16RaceViolations(res *Result) {
+	d := dedupeRace(res.RaceBlocks)
+	res.Stats["race_blocks_total"] = int64(len(res.RaceBlocks))
+	res.Stats["race_blocks_distinct"] = int64(len(d))
+	n := 0
+	for _, k := range sortedKeys(d) {
+		b := d[k]
+		parts := strings.SplitN(b, "Previous ", 2)
+		if len(parts) != 2 {
+			continue
+		}
+		inDecision := func(stack string) bool {
+			if i := strings.Index(stack, "Goroutine "); i > 0 {
+				stack = stack[:i] // only the two access stacks, not where the goroutines were created
+			}
+			return strings.Contains(stack, "internal/security.(*ServiceCore).Check") ||
+				strings.Contains(stack, "middlewares.doAclCheck") || strings.Contains(stack, "middlewares.(*JwtConfig).ValidateToken") ||
+				strings.Contains(stack, "middlewares.JWTHandler")
+		}
+		if inDecision(parts[0]) && inDecision(parts[1]) {
+			n++
+			site := c16RaceSite(parts[0]) + "<->" + c16RaceSite(parts[1])
+			res.Viols = append(res.Viols, Viol{Prop: "C16", Class: "race-inside-access-decision:" + site,
+				Msg: "data race between two requests' token / ACL decisions (one request's answer depends on what another one is doing): " + site, Raw: map[string]any{"block": b}})
+		}
+	}
+	res.Stats["race_blocks_inside_access_decision"] = int64(n)
+}
+
+
+// c16RaceSite: the innermost datahub function of an access stack.
+func c16RaceSite(stack string) string {
+	for _, l := range strings.Split(stack, "\n") {
+		l = strings.TrimSpace(l)
+		if strings.HasPrefix(l, "github.com/mimiro-io/datahub/internal/") && !strings.Contains(l, "/internal/verif/") {
+			if i := strings.LastIndex(l, "("); i > 0 {
+				l = l[:i]
+			}
+			return strings.TrimPrefix(l, "github.com/mimiro-io/datahub/internal/")
+		}
+	}
+	return "?"
 }
